@@ -59,9 +59,9 @@ pub fn mark_job_member_stopped(sh: &mut shell::Shell, pid: i32, gid: i32, report
         gid
     };
 
-    if let Some(job) = sh.mark_job_member_stopped(pid, gid) {
+    if let Some(job) = sh.mark_job_member_stopped(pid, _gid) {
         if job.all_members_stopped() {
-            mark_job_as_stopped(sh, gid, report);
+            mark_job_as_stopped(sh, _gid, report);
         }
     }
 }
@@ -73,9 +73,9 @@ pub fn mark_job_member_continued(sh: &mut shell::Shell, pid: i32, gid: i32) {
         gid
     };
 
-    if let Some(job) = sh.mark_job_member_continued(pid, gid) {
+    if let Some(job) = sh.mark_job_member_continued(pid, _gid) {
         if job.all_members_running() {
-            mark_job_as_running(sh, gid, true);
+            mark_job_as_running(sh, _gid, true);
         }
     }
 }
